@@ -365,6 +365,7 @@ func scenarios(tier string) []sched.Scenario {
 	for _, tr := range []string{"standard", "system-real"} {
 		tr := tr
 		out = append(out, sched.Scenario{Name: "rewrite/" + tr, Run: func(w *sched.W) { runRewrite(w, tr) }})
+		out = append(out, sched.Scenario{Name: "relative/" + tr, Run: func(w *sched.W) { runRelative(w, tr) }})
 	}
 	return out
 }
@@ -435,11 +436,83 @@ func runRewrite(w *sched.W, tr string) {
 	}
 }
 
+// runRelative: the known-hosts file is configured as a relative path that exists both under the working directory
+// and under the home directory, with different content: the configured file is the one under the working directory.
+func runRelative(w *sched.W, tr string) {
+	dir, err := os.MkdirTemp("", "c14rel")
+	if err != nil {
+		w.Violate("c14:harness", err.Error(), tr)
+		return
+	}
+	defer os.RemoveAll(dir)
+	_, otherPub, _ := loop.NewKeyPair(dir, "other")
+	sd := &loop.ServeDevice{}
+	srv, err := loop.NewSSHServer(password, nil, func(kind string, ch io.ReadWriteCloser) {
+		sd.Run(cm.StdCLI("privilege-exec", false), ch)
+	})
+	if err != nil {
+		w.Violate("c14:harness", err.Error(), tr)
+		return
+	}
+	defer srv.Close()
+	good := srv.KnownHostsLine(srv.HostKey.PublicKey()) + "\n"
+	other := srv.KnownHostsLine(otherPub) + "\n"
+	oldWD, _ := os.Getwd()
+	oldHome := os.Getenv("HOME")
+	defer func() { _ = os.Chdir(oldWD); os.Setenv("HOME", oldHome) }()
+	for _, cs := range []struct {
+		name      string
+		cwd, home string
+		want      bool
+	}{{"cwd-other/home-key", other, good, false}, {"cwd-key/home-other", good, other, true}} {
+		cse := "tr=" + tr + " relative known-hosts path " + cs.name
+		w.Case(cse, cse)
+		cwd, home := filepath.Join(dir, cs.name, "cwd"), filepath.Join(dir, cs.name, "home")
+		_ = os.MkdirAll(filepath.Join(cwd, "kh"), 0o700)
+		_ = os.MkdirAll(filepath.Join(home, "kh"), 0o700)
+		_ = os.WriteFile(filepath.Join(cwd, "kh", "known_hosts"), []byte(cs.cwd), 0o600)
+		_ = os.WriteFile(filepath.Join(home, "kh", "known_hosts"), []byte(cs.home), 0o600)
+		_ = os.Chdir(cwd)
+		os.Setenv("HOME", home)
+		ttype := "standard"
+		if tr == "system-real" {
+			ttype = "system"
+		}
+		d, err := generic.NewDriver("127.0.0.1", options.WithPort(srv.Port), options.WithTransportType(ttype), options.WithAuthUsername("admin"), options.WithAuthPassword(password),
+			options.WithSSHKnownHostsFile("kh/known_hosts"), options.WithTimeoutOps(20*time.Second), options.WithTimeoutSocket(10*time.Second))
+		if err != nil {
+			w.Violate("c14:new-driver", err.Error(), cse)
+			continue
+		}
+		done := make(chan error, 1)
+		go func() {
+			err := d.Open()
+			if err == nil {
+				_ = d.Close()
+			}
+			done <- err
+		}()
+		var openErr error
+		select {
+		case openErr = <-done:
+		case <-time.After(60 * time.Second):
+			w.Violate("c14:hang", cse+": open did not finish in 60s", cse)
+			return
+		}
+		if cs.want && openErr != nil {
+			w.Violate("c14:relative-should-connect:"+tr, fmt.Sprintf("%s: the configured file has the server key but: %v", cse, openErr), cse)
+		}
+		if !cs.want && openErr == nil {
+			w.Violate("c14:relative-connected-despite-host-key:"+tr, fmt.Sprintf("%s: connection established although the configured file (under the working directory) does not have the server key", cse), cse)
+		}
+	}
+}
+
 func TestCheck(t *testing.T) {
 	sched.Main(t, sched.Check{
 		ID:    "C14",
 		Level: "exploration",
-		Rule:  "exhaustive configuration table: transport {standard (x/crypto/ssh), system with the real /usr/bin/ssh, system with a stand-in ssh binary that records its argv} x strict checking {default on, disabled} x known-hosts file {has the server key, has another key for the host, empty, not given, only an unparsable line, another key plus an unparsable line, a key of another algorithm} x authentication {password, key, both} x user {set, empty} x ssh config file {none, given} (x port {explicit, default} for the stand-in); every cell is one connection (Open, one command, Close; a refused Open is retried once on the same driver) to an in-process SSH server on loopback with a fresh host key whose auth callbacks record what was offered; plus, per real transport, one known-hosts path rewritten between five connections of the same process (key, other key, empty, key, other key); distinct = distinct cells",
+		Rule:  "exhaustive configuration table: transport {standard (x/crypto/ssh), system with the real /usr/bin/ssh, system with a stand-in ssh binary that records its argv} x strict checking {default on, disabled} x known-hosts file {has the server key, has another key for the host, empty, not given, only an unparsable line, another key plus an unparsable line, a key of another algorithm} x authentication {password, key, both} x user {set, empty} x ssh config file {none, given} (x port {explicit, default} for the stand-in); every cell is one connection (Open, one command, Close; a refused Open is retried once on the same driver) to an in-process SSH server on loopback with a fresh host key whose auth callbacks record what was offered; plus, per real transport, one known-hosts path rewritten between five connections of the same process (key, other key, empty, key, other key) and a relative known-hosts path that also exists under the home directory; distinct = distinct cells",
 		Assumptions: []string{
 			"real sockets, crypto/ssh and OpenSSH cannot run under the controlled scheduler: configurations are enumerated, OS schedules are not",
 			"for the system transport the host key decision is OpenSSH's; scrapligo is judged on the argument list it builds and on the end-to-end outcome",
